@@ -92,6 +92,19 @@ class EpsilonNFA(Regexable, FiniteAutomaton):
         for state in self._start_state:
             if state is not None and state not in self._states:
                 self._states.add(state)
+        self._register_transition_function()
+
+    def _register_transition_function(self):
+        """ The states and the symbols used by the transition function given
+        to the constructor belong to the automaton """
+        for s_from, symb_by, s_to in self._transition_function.get_edges():
+            self._states.add(s_from)
+            if isinstance(s_to, State):
+                self._states.add(s_to)
+            else:
+                self._states.update(s_to)
+            if symb_by != Epsilon():
+                self._input_symbols.add(symb_by)
 
     def _get_next_states_iterable(self,
                                   current_states: Iterable[State],
